@@ -248,6 +248,16 @@ theorem ckdPriv_valid (M : Nat → Point → Point) (par : XPrv) (i : Nat) {c : 
   obtain ⟨d, _, hd⟩ := h
   exact ckdFromData_valid par d hd
 
+/-- BIP32's "proceed with the next value for i": when child `i` is valid the rule returns exactly it … -/
+theorem ckdPrivNext_of_some (M : Nat → Point → Point) (par : XPrv) (t i : Nat) {c : XPrv}
+    (h : ckdPriv M par i = some c) : ckdPrivNext M par (t + 1) i = some (i, c) := by
+  simp only [ckdPrivNext, h]
+
+/-- … and when it is invalid the rule moves on to `i + 1`. -/
+theorem ckdPrivNext_of_none (M : Nat → Point → Point) (par : XPrv) (t i : Nat)
+    (h : ckdPriv M par i = none) : ckdPrivNext M par (t + 1) i = ckdPrivNext M par t (i + 1) := by
+  simp only [ckdPrivNext, h]
+
 theorem master_valid {seed : Bytes} {m : XPrv} (h : master seed = some m) : 0 < m.key ∧ m.key < n ∧ m.chain.length = 32 := by
   simp only [master] at h
   split at h
